@@ -13,6 +13,7 @@
 //            union per permutation, lvalue and rvalue update, results observed, updated further and serialized
 //   big    - larger K, updates logged in batches (UpdateMany) between boundaries
 //   empty  - DIRECTED: EMPTY and ONE-item sketches / union results serialized, restored through both readers, continued in lock-step
+//   x      - DIRECTED: stop exactly at every flavor / window-shift boundary count and its neighbours; observe, serialize, restore, union
 //   delete / long - the surprising-value table under stress in SLIDING flavor (see seg_delete / seg_long)
 // Serialization (bytes and stream, header sizes, custom seed) and copies happen at random points; the restored sketch
 // and its original then receive the same further updates (events on restored objects carry "restored":true).
@@ -651,6 +652,81 @@ static void seg_empty(World& w, int maxlgk) {
   }
 }
 
+// ---------------------------------------------------------------------------------------------------------
+// DIRECTED boundary sweep (kind x, second segment of every file): the stream is stopped EXACTLY at every flavor / window-shift
+// boundary count b = ceil(3K/32), K/2, 27K/8 + wK (w = 0, 1, ...) and at b-1 and b+1.  At each stop: Obs (window offset and
+// flavor must be the documented functions of (C, K)), Ser (two forms), Deser through both readers, Obs of the restored copies,
+// a union fed the sketch and a union fed its restored copy (both must give the sketch's matrix), then the original and the
+// restored copy continue in lock-step to the next stop.  lg_k = 4 + seed % 4 (pool-aimed, every w the pool allows) and
+// lg_k = 8 + (seed % 8) / 2 (random stream in exact-length batches, w = 0..1): the 8 files of a run cover lg_k 4..11.
+// ---------------------------------------------------------------------------------------------------------
+static void boundary_probe(World& w, int A) {
+  const int RB = 10, RS = 11;
+  int lgk = w.sk[A]->get_lg_k();
+  if (w.partner[A] >= 0) { w.partner[w.partner[A]] = -1; w.partner[A] = -1; }
+  ev_obs(w, A);
+  ev_ser(w, A, 0);
+  ev_deser(w, 0, RB, 0);
+  ev_deser(w, 0, RS, 1);
+  union_of(w, 0, lgk, {A}, -1, 5);
+  union_of(w, 1, lgk, {RB}, -1, 6);
+  union_of(w, 2, std::max(4, lgk - 1), {RS}, RS, 6);
+  w.partner[A] = RB; w.partner[RB] = A;            // lock-step until the next stop
+}
+
+static std::vector<long> stop_counts(long K, int wmax) {
+  std::vector<long> bs = {(3 * K + 31) / 32, K / 2};
+  for (int q = 0; q <= wmax; q++) bs.push_back(((27 + 8 * (long)q) * K + 7) / 8);
+  std::vector<long> st;
+  for (long b : bs) for (long d = -1; d <= 1; d++) if (b + d >= 1) st.push_back(b + d);
+  std::sort(st.begin(), st.end()); st.erase(std::unique(st.begin(), st.end()), st.end());
+  return st;
+}
+
+static void sweep_small(World& w, int lgk) {
+  long K = 1L << lgk;
+  build_pool(w, lgk);
+  ev_new(w, 0, lgk);
+  // all pool cells, roughly column-major with jitter: every offer is a NEW cell, so C grows by exactly one per update
+  std::vector<int> cells;
+  for (int col = 0; col < w.pool_cols; col++) for (int row = 0; row < K; row++) if (w.pool_has[row * w.pool_cols + col]) cells.push_back(row * 64 + col);
+  for (size_t a = 0; a < cells.size(); a++) { size_t b = a + w.g.below(std::min<size_t>(3 * K, cells.size() - a)); std::swap(cells[a], cells[b]); }
+  int wmax = std::max(0, w.pool_cols - 12);
+  std::vector<long> st = stop_counts(K, wmax);
+  size_t next = 0, si = 0;
+  while (si < st.size() && next < cells.size() && w.budget > 60) {
+    long c = w.sk[0]->get_num_coupons();
+    if (c == st[si]) { boundary_probe(w, 0); si++; continue; }
+    if (c > st[si]) { si++; continue; }
+    Item it; int cell = cells[next++];
+    if (!pool_item(w, cell / 64, cell % 64, it)) continue;
+    upd(w, 0, it);
+    if (w.g.chance(4)) upd(w, 0, it);               // a duplicate now and then
+  }
+  ev_obs(w, 0);
+}
+
+static void sweep_large(World& w, int lgk, int wmax) {
+  long K = 1L << lgk;
+  ev_new(w, 0, lgk);
+  std::vector<long> st = stop_counts(K, wmax);
+  size_t si = 0;
+  while (si < st.size() && w.budget > 60) {
+    long c = w.sk[0]->get_num_coupons();
+    if (c == st[si]) { boundary_probe(w, 0); si++; continue; }
+    if (c > st[si]) { si++; continue; }
+    long room = st[si] - c;                          // a batch of n items adds at most n coupons: never overshoots
+    if (room >= 8) {
+      std::vector<Item> items;
+      for (long q = 0; q < std::min(400L, room); q++) items.push_back(draw_wide(w.g));
+      upd_many(w, 0, items);
+    } else {
+      upd(w, 0, draw_wide(w.g));
+    }
+  }
+  ev_obs(w, 0);
+}
+
 static void seg_big(World& w, int lgk, int shifts) {
   long K = 1L << lgk;
   ev_new(w, 0, lgk);
@@ -803,6 +879,17 @@ int main(int argc, char** argv) {
       case 'a': { int lgk = (int)w.g.range(4, 6); seg_aimed(w, lgk, (int)w.g.range(3, lgk == 4 ? 12 : (lgk == 5 ? 10 : 8))); break; }
       case 'u': seg_union(w, maxlgk); break;
       case 'e': seg_empty(w, maxlgk); break;
+      case 'x': {
+        int small = 4 + (int)(seed % 4), large = 8 + (int)((seed % 8) / 2);   // 8..11 whatever --maxlgk says
+        sweep_small(w, small);
+        w.budget = events;
+        Ev("Begin").i("seg", seg).str("kind", "X").i("seed", (long long)w.seed).emit();
+        for (int i = 0; i < NS; i++) { w.sk[i].reset(); w.restored[i] = false; w.partner[i] = -1; }
+        for (int i = 0; i < NU; i++) w.un[i].reset();
+        for (int i = 0; i < NB; i++) { w.blive[i] = false; w.blob[i].clear(); }
+        sweep_large(w, large, large >= 10 ? 0 : 1);
+        break;
+      }
       case 'd': seg_delete(w, (int)w.g.range(4, std::min(maxlgk, 8))); break;
       case 'r': { int lgk = (int)w.g.range(4, std::min(maxlgk, 8)); seg_long(w, lgk, (long)w.g.range(20000, 40000)); break; }
       case 'b': { int lgk = (int)w.g.range(std::min(8, maxlgk), maxlgk); seg_big(w, lgk, (int)w.g.range(0, 3)); break; }
